@@ -32,13 +32,18 @@ def _check_loops_from_task(task: Task, visited_tasks: Set[int], validated: Set[i
     if task.id in visited_tasks:
         raise RuntimeError(
             "Found circle",
-            [str(t) + "-->" for t in visited_tasks] + [str(task.id) + ":" + task.name]
+            [str(t) + "-->" for t in visited_tasks] + [str(task.id) + ":" + str(task.name)]
         )
 
     visited_tasks.add(task.id)
 
     for s in task.predecessors:
         _check_loops_from_task(s, visited_tasks, validated)
+    for a in task.all_parents:
+        for s in a.predecessors:
+            _check_loops_from_task(s, visited_tasks, validated)
+    for c in task.children:
+        _check_loops_from_task(c, visited_tasks, validated)
 
     visited_tasks.remove(task.id)
     validated.add(task.id)
